@@ -89,4 +89,13 @@ def Disk.powerLoss (d : Disk) (lose : FileId → Bool) : Disk :=
   { d with files := d.files.map (fun (f, x) =>
       if lose f then (f, { x with data := x.data.take x.synced }) else (f, x)) }
 
+/-- once the machine is back up, what is on the disk IS durable: the bytes that happened to survive
+    a power loss cannot be lost by the next one -/
+def Disk.settle (d : Disk) : Disk :=
+  { d with files := d.files.map (fun (p : FileId × File) => (p.1, { p.2 with synced := p.2.data.length })) }
+
+/-- the image the next `open` finds after a power loss in which the files in `lose` kept only their
+    synced prefix (C09: every choice of `lose`) -/
+def Disk.reboot (d : Disk) (lose : FileId → Bool) : Disk := (d.powerLoss lose).settle
+
 end CasModel
